@@ -34,6 +34,8 @@ type Env struct {
 	depth          int
 	inAxiom        bool
 	keepUniversals bool
+	guard          []Term // conditions under which the expression being evaluated is asserted
+	noUniv         bool   // inside a negation / equivalence: foralls here are not facts to retain
 	target         *State // state that records universals (the live path state)
 }
 
@@ -46,6 +48,18 @@ func (e *Env) with(vars map[string]EVal) *Env {
 	for k, v := range vars {
 		n.vars[k] = v
 	}
+	return &n
+}
+
+func (e *Env) withGuard(g Term) *Env {
+	n := *e
+	n.guard = append(append([]Term(nil), e.guard...), g)
+	return &n
+}
+
+func (e *Env) withoutUniversals() *Env {
+	n := *e
+	n.noUniv = true
 	return &n
 }
 
@@ -168,7 +182,7 @@ func (e *Env) evalLazy(x Expr) EVal {
 		}
 		switch x.Op {
 		case "!":
-			v := e.eval(x.X)
+			v := e.withoutUniversals().eval(x.X)
 			e.wantSort(v, SBool, "!")
 			return EVal{T: Not(v.T)}
 		case "-":
@@ -240,12 +254,13 @@ func (e *Env) evalLazy(x Expr) EVal {
 				v := e.with(map[string]EVal{x.Var: {T: t, Ty: ty}}).eval(x.Body)
 				out = append(out, v.T)
 			}
-			if e.keepUniversals && e.st != nil {
+			if e.keepUniversals && e.st != nil && !e.noUniv {
 				// remember the fact: it is instantiated again at terms created later
 				// (iteration keys), against the state it was assumed in
 				snap := *e
 				body := x.Body
 				vname := x.Var
+				guard := And(e.guard...)
 				e.target.Universals = append(e.target.Universals, universal{sort: so, inst: func(t Term) (res Term, ok bool) {
 					defer func() {
 						if r := recover(); r != nil {
@@ -256,7 +271,10 @@ func (e *Env) evalLazy(x Expr) EVal {
 						}
 					}()
 					v := snap.with(map[string]EVal{vname: {T: t, Ty: ty}}).eval(body)
-					return v.T, v.T.Sort == SBool
+					if v.T.Sort != SBool {
+						return v.T, false
+					}
+					return Implies(guard, v.T), true
 				}})
 			}
 			return EVal{T: And(out...)}
@@ -290,16 +308,16 @@ func (e *Env) binary(x EBinary) EVal {
 	u := e.u
 	switch x.Op {
 	case "==>":
-		a := e.eval(x.X)
+		a := e.withoutUniversals().eval(x.X)
 		e.wantSort(a, SBool, "==>")
 		if isFalse(a.T) {
 			return EVal{T: True} // short-circuit: the consequent may not be evaluable on this path
 		}
-		b := e.eval(x.Y)
+		b := e.withGuard(a.T).eval(x.Y)
 		e.wantSort(b, SBool, "==>")
 		return EVal{T: Implies(a.T, b.T)}
 	case "<==>":
-		a, b := e.eval(x.X), e.eval(x.Y)
+		a, b := e.withoutUniversals().eval(x.X), e.withoutUniversals().eval(x.Y)
 		e.wantSort(a, SBool, "<==>")
 		e.wantSort(b, SBool, "<==>")
 		return EVal{T: Eq(a.T, b.T)}
@@ -313,12 +331,12 @@ func (e *Env) binary(x EBinary) EVal {
 		e.wantSort(b, SBool, "&&")
 		return EVal{T: And(a.T, b.T)}
 	case "||":
-		a := e.eval(x.X)
+		a := e.withoutUniversals().eval(x.X)
 		e.wantSort(a, SBool, "||")
 		if isTrue(a.T) {
 			return EVal{T: True}
 		}
-		b := e.eval(x.Y)
+		b := e.withGuard(Not(a.T)).eval(x.Y)
 		e.wantSort(b, SBool, "||")
 		return EVal{T: Or(a.T, b.T)}
 	}
@@ -781,7 +799,8 @@ func (e *Env) call(x ECall) EVal {
 		h, _ := u.mapLookup(e.st, mt, m.T, k.T)
 		return EVal{T: h}
 	case "ite":
-		c, a, b := arg(0), arg(1), arg(2)
+		nu := e.withoutUniversals()
+		c, a, b := nu.eval(x.Args[0]), nu.eval(x.Args[1]), nu.eval(x.Args[2])
 		return EVal{T: Ite(c.T, a.T, b.T), Ty: a.Ty}
 	case "calls":
 		name := ""
@@ -912,6 +931,29 @@ func (e *Env) call(x ECall) EVal {
 	case "wrap_i32":
 		v := arg(0)
 		return EVal{T: wrapInt(types.Typ[types.Int32], v.T)}
+	case "lit_contains", "lit_equals":
+		// decided by evaluation when the first argument is a string literal of the
+		// program text (e.g. a template passed at a call site); otherwise unknown
+		sv := arg(0)
+		sub, ok := x.Args[1].(EStr)
+		if !ok {
+			efail("%s(s, \"literal\")", x.Fn)
+		}
+		if sv.T.Op == "" {
+			if txt, isLit := u.litVal[sv.T.A]; isLit || sv.T.A == "emptyStr" {
+				var r bool
+				if x.Fn == "lit_equals" {
+					r = txt == sub.V
+				} else {
+					r = strings.Contains(txt, sub.V)
+				}
+				if r {
+					return EVal{T: True}
+				}
+				return EVal{T: False}
+			}
+		}
+		return EVal{T: u.Fresh("lit_unknown", SBool)}
 	case "byteat":
 		s, i := arg(0), arg(1)
 		return EVal{T: u.strAt(s.T, i.T)}
@@ -1076,14 +1118,24 @@ func (e *Env) call(x ECall) EVal {
 		if rs == SStr {
 			u.Axiom(Ge(App("slen", SInt, t), IntLit(0)))
 		}
-		if len(args) == 1 && !e.inAxiom {
+		if !e.inAxiom {
 			for _, tr := range u.P.axTriggers[g.Name] {
-				key := fmt.Sprintf("axinst:%d:%s", tr.id, args[0])
+				if len(tr.vars) != len(args) {
+					continue
+				}
+				key := fmt.Sprintf("axinst:%d:%v", tr.id, args)
 				if u.declS[key] {
 					continue
 				}
 				u.declS[key] = true
-				sub := e.with(map[string]EVal{tr.v: {T: args[0]}})
+				bind := map[string]EVal{}
+				for i, v := range tr.vars {
+					bind[v] = EVal{T: args[i]}
+					if args[i].Sort == SInt {
+						bind[v] = EVal{T: args[i], Ty: types.Typ[types.Int]}
+					}
+				}
+				sub := e.with(bind)
 				sub.assuming = true
 				sub.inAxiom = true // no nested instantiation (matching loops)
 				func() {
